@@ -689,8 +689,9 @@ func c02R5(p *core.Prog, r *core.Report) {
 			// the reference passed is the function's own reference parameter
 			if oc := have["WithRef"]; oc != nil {
 				refOK := false
-				for _, o := range core.Origins(oc.Call.Args[0], core.SliceOpts{Through: refThroughAll}) {
-					if o.Kind == core.OParam && core.IsModNamed(o.Param.Type(), "types/ref", "Ref") {
+				hs := core.Helpers(fn, 2)
+				for _, o := range core.Origins(oc.Call.Args[0], core.SliceOpts{Through: refThroughAll, Helpers: hs, Callers: map[*ssa.Function]bool{fn: true}}) {
+					if o.Kind == core.OParam && o.Param.Parent() == fn && core.IsModNamed(o.Param.Type(), "types/ref", "Ref") {
 						refOK = true
 					}
 				}
@@ -702,7 +703,8 @@ func c02R5(p *core.Prog, r *core.Report) {
 			// layout: the descriptor is the one found in the index (or built from the reference digest), not a fresh literal
 			if oc := have["WithDesc"]; oc != nil && w.rel == ocidirRel {
 				fromIndex := false
-				for _, o := range core.Origins(oc.Call.Args[0], core.SliceOpts{}) {
+				isLookup := func(f *ssa.Function) bool { return f.Name() == "indexGet" }
+				for _, o := range core.Origins(oc.Call.Args[0], core.SliceOpts{Helpers: core.HelpersExcept(fn, 2, isLookup)}) {
 					if o.Kind == core.OCall && o.Callee() != nil && o.Callee().Name() == "indexGet" {
 						fromIndex = true
 					}
